@@ -16,13 +16,16 @@ if not os.environ.get("SKIP_VALIDATE"):
     os.makedirs("/tmp/seedchk", exist_ok=True)
     r = sh("git -C /repo worktree add -q %s HEAD" % wt)
     env["CARGO_TARGET_DIR"] = wt + "/target"
-    demo = "tests/seeded_%s.rs" % prop.lower()
+    meta = json.load(open(os.path.join(d, "meta.json")))
+    sub = "specification-derive/" if "specification-derive" in meta.get("demo_cmd", "") else ""
+    demo = sub + "tests/seeded_%s.rs" % prop.lower()
+    os.makedirs(os.path.dirname(os.path.join(wt, demo)), exist_ok=True)
     shutil.copy(os.path.join(d, "demo.rs"), os.path.join(wt, demo))
-    r = sh("cargo test --offline --all-features --test seeded_%s 2>&1 | tail -5" % prop.lower(), cwd=wt)
+    r = sh("cargo test --offline %s --test seeded_%s 2>&1 | tail -5" % ("" if sub else "--all-features", prop.lower()), cwd=os.path.join(wt, sub))
     res["demo_passes_without"] = "test result: ok" in r.stdout
     a = sh("git apply --whitespace=nowarn %s" % os.path.join(d, "patch.diff"), cwd=wt)
     res["patch_applies"] = a.returncode == 0
-    r = sh("cargo test --offline --all-features --test seeded_%s 2>&1 | tail -5" % prop.lower(), cwd=wt)
+    r = sh("cargo test --offline %s --test seeded_%s 2>&1 | tail -5" % ("" if sub else "--all-features", prop.lower()), cwd=os.path.join(wt, sub))
     res["demo_fails_with"] = "test result: FAILED" in r.stdout or "panicked" in r.stdout
     os.remove(os.path.join(wt, demo))
     r = sh("cargo test --workspace --offline --no-fail-fast 2>&1 | grep -E '^test result|FAILED|failed' | head", cwd=wt)
